@@ -31,6 +31,7 @@ int _GD_MogrifyFile(DIRFILE* D, gd_entry_t* E, unsigned long encoding,
   int subencoding = GD_ENC_UNKNOWN;
   int i, ef_swap;
   int arm_fix = 0, endian_fix = 0;
+  unsigned in_sex, out_sex;
   void *buffer;
 
   dtrace("%p, %p, %lu, %lu, %" PRId64 ", %i, %i, %p", D, E, encoding, byte_sex,
@@ -92,34 +93,21 @@ int _GD_MogrifyFile(DIRFILE* D, gd_entry_t* E, unsigned long encoding,
 
   enc_in = _GD_ef + E->e->u.raw.file[0].subenc;
 
+  /* An encoding which does not need post-framework byte-sex correction (text,
+   * or one which swaps internally) hands over and expects native-endian
+   * data, whatever the byte sex of its fragment */
+  in_sex = (enc_in->flags & GD_EF_ECOR) ?
+    D->fragment[E->fragment_index].byte_sex : 0;
+  out_sex = (enc_out->flags & GD_EF_ECOR) ? byte_sex : 0;
+
   /* if neither encoding scheme does internal byte swapping, and the data
    * type can't be endianness swapped, sex differences can't matter */
   if (GD_SIZE(E->e->u.raw.size) != 1 || (enc_in->flags & GD_EF_SWAP) ||
       (enc_out->flags & GD_EF_SWAP))
   {
     /* figure out whether endianness correction is required */
-    if ((enc_in->flags & GD_EF_ECOR) || (enc_in->flags & GD_EF_ECOR)) {
-      unsigned in_sex = D->fragment[E->fragment_index].byte_sex;
-      unsigned out_sex = byte_sex;
-
-      /* fix endian flags for encoding behaviour */
-      if (!(enc_in->flags & (GD_EF_SWAP | GD_EF_ECOR))) {
-        in_sex = (in_sex & ~(GD_LITTLE_ENDIAN | GD_BIG_ENDIAN)) |
-          (out_sex & (GD_LITTLE_ENDIAN | GD_BIG_ENDIAN));
-        if (!(enc_in->flags & GD_EF_ECOR))
-          in_sex = (in_sex & ~GD_ARM_FLAG) | (out_sex & GD_ARM_FLAG);
-      }
-
-      if (!(enc_out->flags & (GD_EF_SWAP | GD_EF_ECOR))) {
-        out_sex = (out_sex & ~(GD_LITTLE_ENDIAN | GD_BIG_ENDIAN)) |
-          (in_sex & (GD_LITTLE_ENDIAN | GD_BIG_ENDIAN));
-        if (!(enc_out->flags & GD_EF_ECOR))
-          out_sex = (out_sex & ~GD_ARM_FLAG) | (in_sex | GD_ARM_FLAG);
-      }
-
-      endian_fix = _GD_CheckByteSex(E->EN(raw,data_type), in_sex, out_sex, 0,
-          &arm_fix);
-    }
+    endian_fix = _GD_CheckByteSex(E->EN(raw,data_type), in_sex, out_sex, 0,
+        &arm_fix);
   }
 
   /* If all that's changing is the byte sex, but we don't need to do
@@ -173,7 +161,7 @@ int _GD_MogrifyFile(DIRFILE* D, gd_entry_t* E, unsigned long encoding,
   /* Adjust for the change in offset */
   if (offset < 0) { /* new offset is less, pad new file */
     if ((*enc_in->seek)(E->e->u.raw.file, 0, E->EN(raw,data_type),
-          GD_FILE_WRITE) == -1)
+          GD_FILE_READ) == -1)
     {
       _GD_SetEncIOError(D, GD_E_IO_WRITE, E->e->u.raw.file + 0);
     } else
@@ -214,8 +202,7 @@ int _GD_MogrifyFile(DIRFILE* D, gd_entry_t* E, unsigned long encoding,
       break;
 
     /* swap endianness, if required */
-    _GD_FixEndianness(buffer, nread, E->EN(raw,data_type),
-        D->fragment[E->fragment_index].byte_sex, byte_sex);
+    _GD_FixEndianness(buffer, nread, E->EN(raw,data_type), in_sex, out_sex);
 
     nwrote = _GD_WriteOut(E, enc_out, buffer, E->EN(raw,data_type), nread, 1);
 
